@@ -59,6 +59,8 @@ var ics struct {
 	bank   *icsBank
 	fail   bool
 	alias  map[string]string // registered ERC20 alias of a coin -> the coin's denomination
+	// nested: what the wrapper does before the transfer proper (the automatic ERC20 -> coin conversion), in the context given
+	nested func(ctx sdk.Context, m *transfertypes.MsgTransfer)
 }
 
 func icsKey(grantee, granter sdk.AccAddress) string { return grantee.String() + "|" + granter.String() }
@@ -99,6 +101,9 @@ func icsDeleteGrant(k authzkeeper.Keeper, ctx sdk.Context, grantee, granter sdk.
 	return nil
 }
 func icsTransfer(k transferkeeper.Keeper, goCtx context.Context, m *transfertypes.MsgTransfer) (*transfertypes.MsgTransferResponse, error) {
+	if ics.nested != nil {
+		ics.nested(sdk.UnwrapSDKContext(goCtx), m)
+	}
 	if ics.fail {
 		return nil, errors.New("transfer module refused")
 	}
